@@ -373,6 +373,8 @@ class State:
             s._qdoms = dict(self._qdoms)
         if getattr(self, "writes", None):
             s.writes = list(self.writes)
+        if getattr(self, "init_done", None):
+            s.init_done = set(self.init_done)
         return s
 
     def assume(self, *conds, name=None):
